@@ -851,3 +851,398 @@ Proof.
   intros Hg. destruct (create_consumer_inv g (g_last g) zero_off 0 c Hg eq_refl) as (H1 & _ & _ & _ & Hl & _).
   unfold GInv. rewrite Hl. exact H1.
 Qed.
+
+(** ---- removal as a filter; XACK counts each pending ID once ---- *)
+Lemma pel_remove_filter id l : psorted l ->
+  pel_remove id l = filter (fun p => negb (sid_eqb (p_id p) id)) l.
+Proof.
+  induction l as [|q l IH]; intros Hs; cbn [pel_remove filter]; [reflexivity|].
+  apply psorted_inv in Hs as [Hs Hq]. rewrite (sid_eqb_sym id (p_id q)). destruct (sid_eqb (p_id q) id) eqn:E; cbn [negb].
+  - apply sid_eqb_eq in E. symmetry. apply filter_all_true. eapply Forall_impl; [|exact Hq].
+    intros a Ha. unfold plt in Ha. destruct (sid_eqb (p_id a) id) eqn:E2; [|reflexivity].
+    apply sid_eqb_eq in E2. rewrite E, E2 in Ha. exfalso. eapply sid_lt_irrefl; eassumption.
+  - f_equal. apply IH. assumption.
+Qed.
+Lemma psorted_filter f l : psorted l -> psorted (filter f l).
+Proof.
+  induction l as [|q l IH]; intros Hs; cbn [filter]; [constructor|].
+  apply psorted_inv in Hs as [Hs Hq]. destruct (f q); [|exact (IH Hs)].
+  constructor; [exact (IH Hs)|]. apply Forall_forall. intros y Hy. apply filter_In in Hy as [Hy _].
+  rewrite Forall_forall in Hq. auto.
+Qed.
+Lemma fold_remove_filter ids : forall l, psorted l ->
+  fold_left (fun l id => pel_remove id l) ids l = filter (fun p => negb (sid_mem (p_id p) ids)) l.
+Proof.
+  induction ids as [|i ids IH]; intros l Hs; cbn [fold_left sid_mem].
+  - symmetry. apply filter_all_true. apply Forall_forall. reflexivity.
+  - rewrite (pel_remove_filter i l Hs), (IH _ (psorted_filter _ l Hs)), filter_filter'.
+    apply filter_ext_in'. intros p _. rewrite Bool.negb_orb. apply andb_comm.
+Qed.
+Lemma len_filter_split {A} (f : A -> bool) l : len l = len (filter f l) + len (filter (fun x => negb (f x)) l).
+Proof.
+  induction l as [|x l IH]; [reflexivity|]. cbn [filter]. destruct (f x); cbn [negb]; rewrite !len_cons; lia.
+Qed.
+
+(** XACK: the reply is the number of listed IDs that were pending, each counted once,
+    exactly those leave the pending set, and acknowledging them again answers 0 *)
+Theorem ack_counts_once g ids : GInv g ->
+  fst (g_acknowledge g ids) = len (filter (fun p => sid_mem (p_id p) ids) (g_by_id g)) /\
+  g_by_id (snd (g_acknowledge g ids)) = filter (fun p => negb (sid_mem (p_id p) ids)) (g_by_id g) /\
+  fst (g_acknowledge (snd (g_acknowledge g ids)) ids) = 0.
+Proof.
+  intros Hg. destruct (acknowledge_inv g ids Hg) as (H1 & H2 & H3 & H4).
+  pose proof (pi_sorted _ _ (gi_pel _ _ _ _ Hg)) as Hs.
+  rewrite (fold_remove_filter ids _ Hs) in H3. split; [|split; [exact H3|]].
+  - rewrite H4, H3. rewrite (len_filter_split (fun p => sid_mem (p_id p) ids) (g_by_id g)). lia.
+  - destruct (acknowledge_inv _ ids H1) as (_ & _ & K3 & K4). rewrite K4, K3.
+    rewrite (fold_remove_filter ids _ (pi_sorted _ _ (gi_pel _ _ _ _ H1))), H3, filter_filter'.
+    assert (Heq : filter (fun x => negb (sid_mem (p_id x) ids) && negb (sid_mem (p_id x) ids)) (g_by_id g)
+                  = filter (fun p => negb (sid_mem (p_id p) ids)) (g_by_id g)).
+    { apply filter_ext_in'. intros p _. apply andb_diag. }
+    rewrite Heq. lia.
+Qed.
+
+(** ---- XPENDING: the summary is the pending set ---- *)
+Lemma pel_find_of_In l p : psorted l -> In p l -> pel_find (p_id p) l = Some p.
+Proof.
+  induction l as [|q l IH]; intros Hs Hin; [destruct Hin|]. apply psorted_inv in Hs as [Hs Hq].
+  cbn [pel_find]. destruct Hin as [->|Hin]; [rewrite sid_eqb_refl; reflexivity|].
+  destruct (sid_eqb (p_id p) (p_id q)) eqn:E; [|auto]. apply sid_eqb_eq in E.
+  rewrite Forall_forall in Hq. specialize (Hq p Hin). unfold plt in Hq. rewrite E in Hq.
+  exfalso. eapply sid_lt_irrefl; eassumption.
+Qed.
+Lemma psorted_ids_nodup l : psorted l -> NoDup (map p_id l).
+Proof.
+  induction l as [|q l IH]; intros Hs; cbn [map]; [constructor|]. apply psorted_inv in Hs as [Hs Hq].
+  constructor; [|auto]. intros Hin. apply in_map_iff in Hin as [a [Ha Hin]].
+  rewrite Forall_forall in Hq. specialize (Hq a Hin). unfold plt in Hq. rewrite Ha in Hq.
+  eapply sid_lt_irrefl; eassumption.
+Qed.
+Definition owned_by (c : bytes) (l : list pending) : list pending := filter (fun p => beq (p_consumer p) c) l.
+
+Lemma index_agrees_len byid bc c : PInv byid bc -> len (bcg c bc) = len (owned_by c byid).
+Proof.
+  intros Hp. pose proof (pi_sorted _ _ Hp) as Hs.
+  assert (Hperm : Permutation (bcg c bc) (map p_id (owned_by c byid))).
+  { apply NoDup_Permutation.
+    - apply (pi_nodup _ _ Hp).
+    - apply psorted_ids_nodup. apply psorted_filter. assumption.
+    - intros id. rewrite (pi_owner _ _ Hp). unfold owner, owned_by. split.
+      + destruct (pel_find id byid) as [p|] eqn:Ef; [|discriminate]. cbn [option_map]. intros Heq; inversion Heq.
+        apply pel_find_In in Ef as [Hin Hid]. apply in_map_iff. exists p. split; [assumption|].
+        apply filter_In. split; [assumption|]. subst c. apply beq_refl.
+      + intros Hin. apply in_map_iff in Hin as [p [Hid Hin]]. apply filter_In in Hin as [Hin Hc].
+        subst id. rewrite (pel_find_of_In _ _ Hs Hin). cbn. apply beq_eq in Hc. congruence. }
+  apply Permutation_length in Hperm. unfold len. rewrite Hperm, map_length. reflexivity.
+Qed.
+
+Theorem pending_summary_exact g : GInv g ->
+  g_total g = len (g_by_id g) /\ g_min g = pel_min (g_by_id g) /\ g_max g = pel_max (g_by_id g) /\
+  g_ncons g = len (g_consumers g) /\
+  (forall c n, alookup c (g_consumers g) = Some n -> n = len (owned_by c (g_by_id g))) /\
+  (forall p, In p (g_by_id g) -> alookup (p_consumer p) (g_consumers g) <> None) /\
+  (forall c, bcg c (g_by_consumer g) <> [] <-> owned_by c (g_by_id g) <> []).
+Proof.
+  intros Hg. pose proof Hg as [H1 H2 H3 H4 H5 H6 H7 H8 H9]. unfold zero_off in *.
+  split; [lia|]. split; [assumption|]. split; [assumption|]. split; [assumption|]. split; [|split].
+  - intros c n Hn. rewrite <- (index_agrees_len _ _ c H1). specialize (H4 c n Hn). lia.
+  - intros p Hin. apply (H5 _ (p_id p)). unfold owner. rewrite (pel_find_of_In _ _ (pi_sorted _ _ H1) Hin). reflexivity.
+  - intros c. pose proof (index_agrees_len _ _ c H1) as Hl.
+    destruct (bcg c (g_by_consumer g)), (owned_by c (g_by_id g)); rewrite ?len_cons, ?len_nil in Hl;
+      try (pose proof (len_nonneg l)); try (pose proof (len_nonneg l0)); split; intros; try congruence; try lia.
+Qed.
+
+(** ---- XCLAIM moves one pending entry to the claimer ---- *)
+Theorem claim_moves now g c min_idle id force e : GInv g ->
+  pel_find id (g_by_id g) = Some e ->
+  (force = true \/ min_idle <= Z.max 0 (now - p_time e)) ->
+  fst (g_claim now g c min_idle [id] force) = [id] /\
+  pel_find id (g_by_id (snd (g_claim now g c min_idle [id] force)))
+    = Some {| p_id := id; p_consumer := c; p_time := now; p_count := p_count e + 1 |} /\
+  (forall id', id' <> id -> pel_find id' (g_by_id (snd (g_claim now g c min_idle [id] force))) = pel_find id' (g_by_id g)).
+Proof.
+  intros Hg Hf Hok. unfold g_claim. cbn [fold_left].
+  destruct (create_consumer_inv g (g_last g) zero_off 0 c Hg eq_refl) as (_ & _ & Hb1 & _).
+  unfold g_claim_one. rewrite Hb1, Hf.
+  assert (negb force && (Z.max 0 (now - p_time e) <? min_idle) = false) as ->.
+  { destruct Hok as [->|Hok]; [reflexivity|]. apply andb_false_iff. right. apply Z.ltb_ge. assumption. }
+  cbn [fst snd app]. destruct (pel_find_In _ _ _ Hf) as [_ Hid]. subst id.
+  unfold pel_transfer. cbn [g_by_id set_consumers]. rewrite Hb1. split; [reflexivity|]. split.
+  - rewrite pel_find_insert. cbn [p_id]. rewrite sid_eqb_refl. reflexivity.
+  - intros id' Hne. rewrite pel_find_insert. cbn [p_id]. destruct (sid_eqb id' (p_id e)) eqn:E; [|reflexivity].
+    apply sid_eqb_eq in E. contradiction.
+Qed.
+Theorem claim_respects_idle now g c min_idle id e : pel_find id (g_by_id g) = Some e ->
+  Z.max 0 (now - p_time e) < min_idle ->
+  fst (g_claim now g c min_idle [id] false) = [] /\
+  g_by_id (snd (g_claim now g c min_idle [id] false)) = g_by_id g.
+Proof.
+  intros Hf Hidle. unfold g_claim. cbn [fold_left]. unfold g_claim_one.
+  assert (Hb : g_by_id (snd (g_create_consumer g c)) = g_by_id g).
+  { unfold g_create_consumer. destruct (amem c (g_consumers g)); reflexivity. }
+  rewrite Hb, Hf. cbn [negb andb]. replace (Z.max 0 (now - p_time e) <? min_idle) with true by lia.
+  cbn [fst snd]. auto.
+Qed.
+
+(** ---- XREADGROUP with ">" ---- *)
+Lemma sorted_app_inv (a b : list sentry) : sorted (a ++ b) ->
+  sorted a /\ sorted b /\ forall x y, In x a -> In y b -> elt x y.
+Proof.
+  induction a as [|e a IH]; cbn [app]; intros Hs.
+  - split; [constructor|]. split; [assumption|]. intros x y [].
+  - apply sorted_cons_inv in Hs as [Hs He]. destruct (IH Hs) as (Ha & Hb & Hab).
+    apply Forall_app in He as [He1 He2]. split; [constructor; assumption|]. split; [assumption|].
+    intros x y [<-|Hx] Hy; [rewrite Forall_forall in He2; auto|auto].
+Qed.
+Lemma sorted_firstn n es : sorted es -> sorted (firstn n es).
+Proof. intros Hs. rewrite <- (firstn_skipn n es) in Hs. apply sorted_app_inv in Hs. tauto. Qed.
+Lemma sorted_take_count count es : sorted es -> sorted (take_count count es).
+Proof.
+  intros Hs. destruct count as [c|]; [|assumption]. cbn [take_count]. unfold ztake.
+  destruct (len es <=? c); [assumption|]. apply sorted_firstn; assumption.
+Qed.
+Lemma take_count_split {A} count (l : list A) : exists rest, l = take_count count l ++ rest.
+Proof.
+  destruct count as [c|]; cbn [take_count]; [|exists []; rewrite app_nil_r; reflexivity].
+  unfold ztake. destruct (len l <=? c); [exists []; rewrite app_nil_r; reflexivity|].
+  exists (skipn (Z.to_nat c) l). unfold zfirstn. symmetry. apply firstn_skipn.
+Qed.
+Lemma sorted_ids_nodup es : sorted es -> NoDup (map fst es).
+Proof.
+  induction es as [|e es IH]; intros Hs; cbn [map]; [constructor|]. apply sorted_cons_inv in Hs as [Hs He].
+  constructor; [|auto]. intros Hin. apply in_map_iff in Hin as [a [Ha Hin]].
+  rewrite Forall_forall in He. specialize (He a Hin). unfold elt in He. rewrite Ha in He.
+  eapply sid_lt_irrefl; eassumption.
+Qed.
+Lemma rev_cons_inv {A} (l : list A) x r : rev l = x :: r -> l = rev r ++ [x].
+Proof. intros H. rewrite <- (rev_involutive l), H. reflexivity. Qed.
+Lemma sorted_last_max es e r : sorted es -> rev es = e :: r -> forall x, In x es -> sid_le (fst x) (fst e).
+Proof.
+  intros Hs Hr x Hx. apply rev_cons_inv in Hr. subst es. apply sorted_app_inv in Hs as (_ & _ & Hab).
+  apply in_app_or in Hx as [Hx|[<-|[]]]; [left; apply (Hab x e Hx); left; reflexivity|apply sid_le_refl].
+Qed.
+Lemma sid_mem_map_fst id (es : list sentry) : sid_mem id (map fst es) = true <-> exists e, In e es /\ fst e = id.
+Proof.
+  rewrite sid_mem_In, in_map_iff. split; intros [e [H1 H2]]; exists e; auto.
+Qed.
+
+Lemma rev_map_head {A B} (f : A -> B) l x r : rev l = x :: r -> rev (map f l) = f x :: tl (rev (map f l)).
+Proof. intros H. rewrite <- map_rev, H. reflexivity. Qed.
+
+(** a read with ">" (acknowledged mode): returns the first [count] present entries above
+    the cursor, in ID order; they become pending under the reader; the cursor moves to
+    the last of them *)
+Theorem read_new_inv now s g c count : SInv s -> GInv g ->
+  let r := st_read_group now s g c sid_max count false in
+  fst r = take_count count (filter (p_gt (g_last g)) (s_entries s)) /\
+  GInv (snd r) /\
+  sorted (fst r) /\ Forall (fun e => sid_lt (g_last g) (fst e)) (fst r) /\
+  (fst r = [] -> snd r = g) /\
+  (forall e rest, rev (fst r) = e :: rest -> g_last (snd r) = fst e) /\
+  (forall id, owner (g_by_id (snd r)) id = if sid_mem id (map fst (fst r)) then Some c else owner (g_by_id g) id).
+Proof.
+  intros Hs Hg. cbn zeta. unfold st_read_group. rewrite sid_eqb_refl.
+  rewrite (range_after_spec _ (g_last g) count (inv_sorted s Hs)).
+  remember (take_count count (filter (p_gt (g_last g)) (s_entries s))) as es eqn:Hes.
+  assert (Hsorted : sorted es) by (subst es; apply sorted_take_count, sorted_filter, (inv_sorted s Hs)).
+  assert (Hgt : Forall (fun e => sid_lt (g_last g) (fst e)) es).
+  { destruct (take_count_split count (filter (p_gt (g_last g)) (s_entries s))) as [rest Hsplit]. rewrite <- Hes in Hsplit.
+    apply Forall_forall. intros e He.
+    assert (Hin : In e (filter (p_gt (g_last g)) (s_entries s))) by (rewrite Hsplit; apply in_or_app; left; assumption).
+    apply filter_In in Hin as [_ Hin]. unfold p_gt in Hin. apply sid_ltb_lt. assumption. }
+  clear Hes.
+  destruct (rev es) as [|el rest] eqn:Erev.
+  - apply (f_equal (@rev _)) in Erev. rewrite rev_involutive in Erev. cbn [rev] in Erev. subst es.
+    cbn [fst snd map sid_mem]. split; [reflexivity|]. split; [assumption|]. split; [constructor|]. split; [constructor|].
+    split; [reflexivity|]. split; [intros e rest H; discriminate|]. intros id; reflexivity.
+  - destruct es as [|e0 es']; [discriminate|]. cbn [fst snd].
+    assert (Hrev : rev (map fst (e0 :: es')) = fst el :: tl (rev (map fst (e0 :: es')))).
+    { apply (rev_map_head fst _ el rest Erev). }
+    destruct (add_pending_inv now g c (map fst (e0 :: es')) (fst el) Hg (sorted_ids_nodup _ Hsorted)) as (H1 & H2 & H3).
+    + intros id Hin. apply in_map_iff in Hin as [e [He Hin]]. subst id. split.
+      * rewrite Forall_forall in Hgt. apply Hgt. assumption.
+      * apply (sorted_last_max _ el rest Hsorted Erev). assumption.
+    + exact Hrev.
+    + split; [reflexivity|]. split; [assumption|]. split; [assumption|]. split; [assumption|].
+      split; [intros Hnil; discriminate|]. split; [|exact H3].
+      intros e rest' He. rewrite He in Erev. inversion Erev; subst. exact H2.
+Qed.
+
+(** the batch is a prefix: every present entry between the old and the new cursor is in it *)
+Lemma read_new_complete now s g c count : SInv s -> GInv g ->
+  let r := st_read_group now s g c sid_max count false in
+  forall e, In e (s_entries s) -> sid_lt (g_last g) (fst e) -> sid_le (fst e) (g_last (snd r)) -> In e (fst r).
+Proof.
+  intros Hs Hg. cbn zeta. destruct (read_new_inv now s g c count Hs Hg) as (H1 & H2 & H3 & H4 & H5 & H6 & _). cbn zeta in *.
+  intros e He Hlt Hle.
+  destruct (rev (fst (st_read_group now s g c sid_max count false))) as [|el rest] eqn:Erev.
+  - apply (f_equal (@rev _)) in Erev. rewrite rev_involutive in Erev. cbn in Erev.
+    rewrite (H5 Erev) in Hle. exfalso. eapply sid_lt_not_le; eassumption.
+  - rewrite (H6 _ _ eq_refl) in Hle.
+    destruct (take_count_split count (filter (p_gt (g_last g)) (s_entries s))) as [rest' Hsplit].
+    rewrite <- H1 in Hsplit.
+    assert (Hin : In e (filter (p_gt (g_last g)) (s_entries s))).
+    { apply filter_In. split; [assumption|]. unfold p_gt. apply sid_ltb_lt. assumption. }
+    rewrite Hsplit in Hin. apply in_app_or in Hin as [Hin|Hin]; [assumption|exfalso].
+    assert (Hsf : sorted (filter (p_gt (g_last g)) (s_entries s))) by (apply sorted_filter, (inv_sorted s Hs)).
+    rewrite Hsplit in Hsf. apply sorted_app_inv in Hsf as (_ & _ & Hab).
+    assert (Hel : In el (fst (st_read_group now s g c sid_max count false))) by (apply in_rev; rewrite Erev; left; reflexivity).
+    specialize (Hab el e Hel Hin). unfold elt in Hab. eapply sid_lt_not_le; eassumption.
+Qed.
+
+(** ---- histories of one group on one stream ---- *)
+Inductive gop :=
+| GStream (o : sop)                                   (* XADD / XDEL / XTRIM in between *)
+| GRead (now : Z) (c : bytes) (count : option Z)      (* XREADGROUP GROUP g c [COUNT n] STREAMS k > *)
+| GAck (ids : list sid)
+| GClaim (now : Z) (c : bytes) (min_idle : Z) (ids : list sid) (force : bool)
+| GDelConsumer (c : bytes)
+| GCreateConsumer (c : bytes).
+Definition gop_ok (o : gop) : Prop := match o with GStream o => sop_ok o | _ => True end.
+
+(** one step: new stream and group, and the (consumer, id) deliveries it made through ">" *)
+Definition gstep (s : stream) (g : group) (o : gop) : stream * group * list (bytes * sid) :=
+  match o with
+  | GStream o => (fst (sstep s o), g, [])
+  | GRead now c count =>
+      match st_read_group now s g c sid_max count false with
+      | (es, g') => (s, g', map (fun e => (c, fst e)) es)
+      end
+  | GAck ids => (s, snd (g_acknowledge g ids), [])
+  | GClaim now c mi ids f => (s, snd (g_claim now g c mi ids f), [])
+  | GDelConsumer c => (s, snd (g_delete_consumer g c), [])
+  | GCreateConsumer c => (s, snd (g_create_consumer g c), [])
+  end.
+Fixpoint grun (s : stream) (g : group) (ops : list gop) : stream * group * list (bytes * sid) :=
+  match ops with
+  | [] => (s, g, [])
+  | o :: r => match gstep s g o with
+              | (s1, g1, d) => match grun s1 g1 r with (s2, g2, l) => (s2, g2, d ++ l) end
+              end
+  end.
+
+Lemma sstep_entries s o : SInv s -> sop_ok o ->
+  sid_le (s_last s) (s_last (fst (sstep s o))) /\
+  forall e, In e (s_entries (fst (sstep s o))) -> In e (s_entries s) \/ sid_lt (s_last s) (fst e).
+Proof.
+  intros Hi Hok. destruct o as [now f|id f|ids|n]; cbn [sstep].
+  - destruct (st_add_auto now s f) as [[id s']|] eqn:E; cbn [fst]; [|split; [apply sid_le_refl|auto]].
+    destruct (add_auto_inv _ _ _ _ _ Hi E) as (_ & H2 & _ & H4 & H5). rewrite H4, H5. split; [left; assumption|].
+    intros e He. apply in_app_or in He as [He|[<-|[]]]; auto.
+  - destruct (st_add_with_id s id f) as [s'|] eqn:E; cbn [fst]; [|split; [apply sid_le_refl|auto]].
+    destruct (add_with_id_inv _ _ _ _ Hi E) as (_ & H2 & H3 & H4). rewrite H3, H4. split; [left; assumption|].
+    intros e He. apply in_app_or in He as [He|[<-|[]]]; auto.
+  - cbn [fst]. destruct (delete_inv s ids Hi) as (_ & H2 & H3 & _). rewrite H2, H3. split; [apply sid_le_refl|].
+    intros e He. apply filter_In in He. tauto.
+  - cbn [fst]. destruct (trim_inv s n Hi Hok) as (_ & H2 & H3 & _). rewrite H2, H3. split; [apply sid_le_refl|].
+    intros e He. left. unfold zskipn in He. rewrite <- (firstn_skipn (Z.to_nat (fst (st_trim s n))) (s_entries s)).
+    apply in_or_app. right; assumption.
+Qed.
+
+(** what one step does to invariants, cursor and deliveries *)
+Definition step_facts (s : stream) (g : group) (s1 : stream) (g1 : group) (d : list (bytes * sid)) : Prop :=
+  SInv s1 /\ GInv g1 /\ sid_le (g_last g1) (s_last s1) /\
+  StronglySorted sid_lt (g_last g :: map snd d) /\
+  sid_le (g_last g) (g_last g1) /\ Forall (fun i => sid_le i (g_last g1)) (map snd d) /\
+  sid_le (s_last s) (s_last s1) /\
+  (forall e, In e (s_entries s1) -> In e (s_entries s) \/ sid_lt (s_last s) (fst e)) /\
+  (forall e, In e (s_entries s1) -> sid_lt (g_last g) (fst e) -> sid_le (fst e) (g_last g1) -> In (fst e) (map snd d)).
+
+Lemma step_facts_refl s g g1 : SInv s -> GInv g1 -> g_last g1 = g_last g -> sid_le (g_last g) (s_last s) ->
+  step_facts s g s g1 [].
+Proof.
+  intros Hs Hg1 Hl Hle. unfold step_facts. rewrite Hl. cbn [map].
+  split; [assumption|]. split; [assumption|]. split; [assumption|]. split; [constructor; constructor|].
+  split; [apply sid_le_refl|]. split; [constructor|]. split; [apply sid_le_refl|]. split; [auto|].
+  intros e _ H1 H2. exfalso. eapply sid_lt_not_le; eassumption.
+Qed.
+
+Lemma gstep_facts s g o : SInv s -> GInv g -> sid_le (g_last g) (s_last s) -> gop_ok o ->
+  match gstep s g o with (s1, g1, d) => step_facts s g s1 g1 d end.
+Proof.
+  intros Hs Hg Hle Hok.
+  destruct o as [o|now c count|ids|now c mi ids f|c|c]; cbn [gstep].
+  - cbn [gop_ok] in Hok. destruct (sstep_inv s o Hs Hok) as [Hs1 _]. destruct (sstep_entries s o Hs Hok) as [Hl1 He1].
+    unfold step_facts. cbn [map].
+    split; [assumption|]. split; [assumption|]. split; [eapply sid_le_trans; eassumption|].
+    split; [constructor; constructor|]. split; [apply sid_le_refl|]. split; [constructor|]. split; [assumption|].
+    split; [assumption|]. intros e _ H1 H2. exfalso. eapply sid_lt_not_le; eassumption.
+  - pose proof (read_new_inv now s g c count Hs Hg) as Hr. pose proof (read_new_complete now s g c count Hs Hg) as Hc.
+    cbn zeta in Hr, Hc. destruct (st_read_group now s g c sid_max count false) as [es g1] eqn:Er. cbn [fst snd] in *.
+    destruct Hr as (H1 & H2 & H3 & H4 & H5 & H6 & _). unfold step_facts.
+    rewrite map_map. cbn [snd]. change (map (fun x : sentry => fst x) es) with (map fst es).
+    assert (Hcur : sid_le (g_last g) (g_last g1) /\ Forall (fun i => sid_le i (g_last g1)) (map fst es) /\ sid_le (g_last g1) (s_last s)).
+    { destruct (rev es) as [|el rest] eqn:Erev.
+      - apply (f_equal (@rev _)) in Erev. rewrite rev_involutive in Erev. cbn [rev] in Erev.
+        rewrite (H5 Erev), Erev. split; [apply sid_le_refl|]. split; [constructor|assumption].
+      - rewrite (H6 _ _ eq_refl).
+        assert (Hel : In el es) by (apply in_rev; rewrite Erev; left; reflexivity).
+        split; [left; rewrite Forall_forall in H4; apply H4; assumption|]. split.
+        + apply Forall_forall. intros i Hi. apply in_map_iff in Hi as [e [<- He]].
+          apply (sorted_last_max es el rest H3 Erev). assumption.
+        + assert (Hin : In el (s_entries s)).
+          { destruct (take_count_split count (filter (p_gt (g_last g)) (s_entries s))) as [rest' Hsp]. rewrite <- H1 in Hsp.
+            assert (Hin' : In el (filter (p_gt (g_last g)) (s_entries s))) by (rewrite Hsp; apply in_or_app; left; assumption).
+            apply filter_In in Hin'. tauto. }
+          pose proof (inv_last s Hs) as Hl. rewrite Forall_forall in Hl. apply (Hl el). assumption. }
+    destruct Hcur as (Hc1 & Hc2 & Hc3).
+    split; [assumption|]. split; [assumption|]. split; [assumption|]. split.
+    { constructor.
+      - clear -H3. induction H3 as [|e l Hl IH He]; cbn [map]; constructor; [assumption|].
+        apply Forall_forall. intros i Hi. apply in_map_iff in Hi as [x [<- Hx]]. rewrite Forall_forall in He. apply He. assumption.
+      - apply Forall_forall. intros i Hi. apply in_map_iff in Hi as [x [<- Hx]]. rewrite Forall_forall in H4. apply H4. assumption. }
+    split; [assumption|]. split; [assumption|]. split; [apply sid_le_refl|]. split; [auto|].
+    intros e He Hlt Hle'. apply in_map. apply Hc; assumption.
+  - destruct (acknowledge_inv g ids Hg) as (H1 & H2 & _). apply step_facts_refl; assumption.
+  - destruct (claim_inv now g c mi ids f Hg) as (H1 & H2 & _). apply step_facts_refl; assumption.
+  - destruct (delete_consumer_inv g c Hg) as (H1 & H2 & _). apply step_facts_refl; assumption.
+  - pose proof (create_consumer_ginv g c Hg) as H1. apply step_facts_refl; [assumption|assumption| |assumption].
+    unfold g_create_consumer. destruct (amem c (g_consumers g)); reflexivity.
+Qed.
+
+Lemma step_facts_trans s g s1 g1 d s2 g2 l :
+  sid_le (g_last g) (s_last s) -> step_facts s g s1 g1 d -> step_facts s1 g1 s2 g2 l -> step_facts s g s2 g2 (d ++ l).
+Proof.
+  intros Hle (A1 & A2 & A3 & A4 & A5 & A6 & A7 & A8 & A9) (B1 & B2 & B3 & B4 & B5 & B6 & B7 & B8 & B9).
+  unfold step_facts. rewrite map_app.
+  split; [assumption|]. split; [assumption|]. split; [assumption|]. split; [|split; [|split; [|split; [|split]]]].
+  - inversion A4 as [|? ? A4s A4f]; subst. inversion B4 as [|? ? B4s B4f]; subst.
+    assert (Hbig : Forall (sid_lt (g_last g)) (map snd l)).
+    { eapply Forall_impl; [|exact B4f]. intros i Hi. eapply sid_le_lt_trans; eassumption. }
+    constructor; [|apply Forall_app; split; assumption].
+    clear - A4s B4s A6 B4f. induction (map snd d) as [|x xs IHx]; cbn [app]; [assumption|].
+    inversion A4s as [|? ? Hs' Hf']; subst. inversion A6 as [|? ? Hx Hxs]; subst. constructor; [auto|].
+    apply Forall_app. split; [assumption|]. eapply Forall_impl; [|exact B4f]. intros i Hi.
+    eapply sid_le_lt_trans; eassumption.
+  - eapply sid_le_trans; eassumption.
+  - apply Forall_app. split; [|assumption]. eapply Forall_impl; [|exact A6]. intros i Hi. cbv beta in Hi.
+    eapply sid_le_trans; eassumption.
+  - eapply sid_le_trans; eassumption.
+  - intros e He. destruct (B8 e He) as [H|H].
+    + destruct (A8 e H) as [H'|H']; auto.
+    + right. eapply sid_le_lt_trans; eassumption.
+  - intros e He Hlt Hle2. apply in_or_app.
+    destruct (sid_leb (fst e) (g_last g1)) eqn:Ec.
+    + apply sid_leb_le in Ec. left. apply A9; [|assumption|assumption].
+      destruct (B8 e He) as [H|H]; [assumption|exfalso].
+      assert (sid_lt (fst e) (fst e)); [|eapply sid_lt_irrefl; eassumption].
+      eapply sid_le_lt_trans; [exact Ec|]. exact (sid_le_lt_trans _ _ _ A3 H).
+    + apply sid_leb_nle in Ec. right. apply B9; assumption.
+Qed.
+
+(** Exactly-once delivery through ">": over every history of reads, acknowledgements,
+    claims, consumer administration and stream changes, the IDs delivered are strictly
+    increasing (no entry is delivered twice; delivery is in ID order), all above the start
+    position, and every present entry above the start position and at or below the cursor
+    has been delivered *)
+Theorem group_history ops : forall s g, SInv s -> GInv g -> sid_le (g_last g) (s_last s) -> Forall gop_ok ops ->
+  match grun s g ops with (s2, g2, log) => step_facts s g s2 g2 log end.
+Proof.
+  induction ops as [|o ops IH]; intros s g Hs Hg Hle Hok; cbn [grun].
+  - apply step_facts_refl; auto.
+  - inversion Hok as [|? ? Ho Hok']; subst.
+    pose proof (gstep_facts s g o Hs Hg Hle Ho) as Hstep. destruct (gstep s g o) as [[s1 g1] d].
+    pose proof Hstep as (A1 & A2 & A3 & _).
+    specialize (IH s1 g1 A1 A2 A3 Hok'). destruct (grun s1 g1 ops) as [[s2 g2] l].
+    eapply step_facts_trans; eassumption.
+Qed.
